@@ -202,7 +202,7 @@ func (f *htmlFam) doc(c [2]int32) (doc string, tags []string, label string) {
 		if d < 0 {
 			continue
 		}
-		s, v := htmlSlots[d/nv], htmlValues[d%nv]
+		s, v := htmlSlots[d/nv], allValues[d%nv]
 		set[s.elem] += " " + s.attr + "=\"" + strings.NewReplacer("&", "&amp;", "\"", "&quot;").Replace(v) + "\""
 		tags = append(tags, "attr="+s.elem+"."+s.attr)
 		label += fmt.Sprintf("<%s %s=%q>", s.elem, s.attr, v)
